@@ -303,7 +303,9 @@ def predict(program, cfg):
     if state["any_failed"] or p.aborted:
         p.verdict = {True}
     elif dry and state["dry_undefined"]:
-        p.verdict = {True, False}        # not demanded (dry-run is how undefined steps are discovered)
+        # a dry-run executes nothing, but it looks every step of every selected scenario up: an undefined step found there is
+        # "a selected scenario runs into a step that is undefined" (the fourth disjunct of the verdict expression exists for it)
+        p.verdict = {True}
     else:
         p.verdict = {False}
     return p
